@@ -111,6 +111,9 @@ class ReplAgrees(Harness):
             for k in range(len(specs)):
                 yield dict(s=name, spec=k)
 
+    def native_checks(self, case):
+        return [('repl-session', case['s']), ('compile', 'repl-original:' + case['s']), ('compile', 'repl-residual:' + case['s'])]
+
     def sess(self, case):
         for row in SESSIONS:
             if row[0] == case['s']:
